@@ -754,6 +754,59 @@ def typed_reader(ctx, prog, m, mk, accs, variant, accessor_fields):
                 # switch lists other variants explicitly and own variant falls in otherwise
                 if all(v != variant for v in arms):
                     pass
+    # the whole-value form: `reaction_type == EntityReactionType::<Variant>(own type id)` through the *derived* PartialEq of
+    # the kind enum (equal discriminant and equal payload) - the equal arm is both the variant arm and the TypeId arm
+    whole_heads = []
+    derived_eq = any(im.get("derived") and (im.get("trait") or "").endswith("cmp::PartialEq") and (im.get("self_adt") or "").endswith("::EntityReactionType")
+                     for im in prog.impls)
+    # the trackers' fields that hold the kind of the running reaction (by type)
+    kind_fields = set()
+    for ty_ in accessor_fields:
+        try:
+            for f_ in prog.adts[ty_]["variants"][0]["fields"]:
+                if f_["ty"].endswith("::EntityReactionType"):
+                    kind_fields.add(f_["name"])
+        except (KeyError, IndexError):
+            pass
+    if derived_eq:
+        for b, t, fr in m.iter_calls():
+            if fr is None or lib.tail(mir.fn_name(fr), 1) not in ("eq", "ne") or len(t["args"]) < 2:
+                continue
+            if not any(a.endswith("::EntityReactionType") for a in fr.get("args", [])):
+                continue
+            sides = [origins(m, t["args"][0]), origins(m, t["args"][1])]
+            def _is_current(os_):
+                # the tracker's own record of the running reaction: its accessor, or (the accessor inlined) its field
+                return bool(os_) and all((o[0] == "call" and o[1] in [x[0] for x in rt_calls]) or
+                                         (o[0] == "arg" and o[1] == 1 and len(o) >= 3 and isinstance(o[-1], str) and o[-1].lstrip(".") in kind_fields)
+                                         for o in os_)
+            def _is_own_kind(os_):
+                if not os_:
+                    return False
+                for o in os_:
+                    if o[0] != "agg" or len(o) != 3:
+                        return False
+                    ag = m.blocks[o[1]]["stmts"][o[2]]["rv"]["agg"]
+                    if not (ag.get("adt", "").endswith("::EntityReactionType") and ag.get("vname") == variant and len(ag["ops"]) == 1):
+                        return False
+                    own = False
+                    for o2 in origins(m, ag["ops"][0]):
+                        if o2[0] == "call":
+                            fr2 = op_fn(m.blocks[o2[1]]["term"]["func"])
+                            cb2 = prog.resolve_local(fr2) if fr2 else None
+                            if (cb2 is not None and own_type_id_getter(ctx, prog, cb2)) or \
+                                    (fr2 and lib.tail(mir.fn_name(fr2), 2) == "TypeId::of" and fr2.get("args") == ["T"]):
+                                own = True
+                                continue
+                        own = False
+                        break
+                    if not own:
+                        return False
+                return True
+            if (_is_current(sides[0]) and _is_own_kind(sides[1])) or (_is_current(sides[1]) and _is_own_kind(sides[0])):
+                for (sb, tt, ft) in lib.bool_arms(m, b):
+                    whole_heads.append(tt if lib.tail(mir.fn_name(fr), 1) == "eq" else ft)
+    arm_heads = arm_heads + whole_heads
     for b, t, cb, sp in src_calls:
         ctx.check(lib.dominated_by_any(m, b, arm_heads), "C03.c", "%s:own-variant-arm" % mk, m.loc(b),
                   "source() only on the %s arm of reaction_type()" % variant,
@@ -780,6 +833,7 @@ def typed_reader(ctx, prog, m, mk, accs, variant, accessor_fields):
         if from_payload and own_id:
             for (sb, tt, ft) in lib.bool_arms(m, b):
                 eq_heads.append(tt if lib.tail(mir.fn_name(fr), 1) == "eq" else ft)
+    eq_heads = eq_heads + whole_heads
     for b, t, cb, sp in src_calls:
         ctx.check(lib.dominated_by_any(m, b, eq_heads), "C03.c", "%s:own-type-id" % mk, m.loc(b),
                   "source() only after the reaction's TypeId compared equal to TypeId::of::<T>()",
